@@ -161,6 +161,35 @@ func genC15(g *Rng, tier string, emit func(Op)) {
 		}
 		emit(Op{"op": "inthash-concurrent", "class": "inthash-concurrent", "label": "ok", "inputs": inputs, "rounds": rounds})
 	}
+	// the attribute hash as the verifier applies it: a disclosed attribute is hashed exactly when it
+	// is longer than the message length of the key's parameter set - also in the set whose message
+	// length (512) differs from its hash length (256). A value the issuer signed as it is, is accepted
+	// as it is; a credential over the digest of x does not disclose x where x fits the message length.
+	for _, kp := range []*KeyPair{fixedKey("k1024a", false), key4096("k4096", 3)} {
+		emit(declKey(kp))
+		lm := int(kp.pk.Params.Lm)
+		for _, bits := range []int{200, 255, 256, 257, 300, 400, 511, 512, 513, 600, 1100} {
+			x := g.exactBits(bits)
+			cred := issueCred(kp, randSecret(g), []*big.Int{x, g.bits(60)})
+			ctx, nonce := g.bits(256), g.bits(80)
+			p, err := cred.CreateDisclosureProof([]int{1}, nil, false, ctx, nonce)
+			if err != nil {
+				panic(err)
+			}
+			emit(verifyDOp(kp.id, proofDTree(p), ctx, nonce, false, fmt.Sprintf("attribute-hash-in-verification-lm%d", lm), "accept").with("fkey", "C15/attribute-hash-threshold"))
+			if bits > 256 && bits <= lm {
+				h := gabi.VerifIntHashSha256(x.Bytes())
+				credH := issueCred(kp, randSecret(g), []*big.Int{h, g.bits(60)})
+				ph, err := credH.CreateDisclosureProof([]int{1}, nil, false, ctx, nonce)
+				if err != nil {
+					panic(err)
+				}
+				t := proofDTree(ph)
+				t["a_disclosed"].(T)["1"] = I(x)
+				emit(verifyDOp(kp.id, t, ctx, nonce, false, "preimage-for-signed-digest", "reject").with("fkey", "C15/attribute-hash-threshold"))
+			}
+		}
+	}
 	// content-length boundaries (bytes): 127/128/255/256/65535
 	lenBounds := []int{0, 1, 7, 8, 126 * 8, 127 * 8, 128 * 8, 255 * 8, 256 * 8, 257 * 8}
 	// fixed corpus first
